@@ -16,6 +16,10 @@ theorem curRoom_eq : ∀ (cur : List Int), curRoom cur = LIM - curUsed cur
   | [] => rfl
   | co :: r => by simp only [curRoom, curUsed, curRoom_eq r]; omega
 
+theorem curUsed_zeros : ∀ (n : Nat), curUsed (List.replicate n 0) = 0
+  | 0 => rfl
+  | n + 1 => by simp only [List.replicate_succ, curUsed, curUsed_zeros n]; rfl
+
 mutual
 /-- the largest counter a capacity check looks at (offsets: bytes / list / map; view buffers; union row counters) -/
 def used : B → Nat
